@@ -1,4 +1,4 @@
-From Tetl Require Import Lib.Base C07.Types C07.Model C07.Spec C07.ModelSm C07.SpecSm.
+From Tetl Require Import Lib.Base C07.Types C07.Model C07.Spec C07.ModelSm C07.SpecSm C07.TypesVo C07.ModelVo C07.SpecVo.
 Require Extraction.
 Require Import ExtrOcamlBasic.
 Extraction Language OCaml.
@@ -12,4 +12,5 @@ Extraction "C07_model.ml" wire_anchor
   so_step so_run so_value_or so_and_then so_or_else so_and_then_q so_or_else_q so_value_or_q so_take_q so_rel so_rel_null so_rel_val
   se_step se_run se_value_or se_and_then se_or_else se_and_then_q se_or_else_q se_value_or_q se_take_q se_take_error_q
   sr_step sr_run sr_deref ustep urun unex_eq su_step su_run
-  f_plain f_of_bits elt_traits m_traits s_traits m_run s_run.
+  f_plain f_of_bits elt_traits m_traits s_traits m_run s_run
+  sty_of_id vo_value_or svo_value_or.
